@@ -792,7 +792,16 @@ META_C20 = {
             "successfully ALONE from the bootstrap state; C20_chain_full - every block of root..tip is applied, not failed and "
             "at CAN_BE_APPLIED; the level logic of applyBlock (the fully-valid level is raised only on a fully valid parent and "
             "only when the applied-block counter says nothing but root..parent is applied; a block applied next to another "
-            "chain or on a MAYBE parent is never reported fully valid by that application); the unapply discipline. Outside the "
+            "chain or on a MAYBE parent is never reported fully valid by that application); the unapply discipline. Over all "
+            "CONTINUATIONS of all histories: a block reported fully valid in any of the three ways (level, successful setState, "
+            "won comparison) keeps the level and setState to it returns TRUE from every later state in which it has no failure "
+            "mark (C20_later_reactivation, C20_reported_full_persists, C20_levels_never_lowered); a block whose own ancestry does "
+            "not replay alone is at the fully-valid level in NO reachable state (C20_never_full_unless_valid_alone, "
+            "C20_full_means_validated_alone); applyBlock executes a block's commands in body order and unapplyBlock reverts them "
+            "in exactly the reverse order, as equalities of protecting states (C20_apply_executes_in_order, "
+            "C20_unapply_reverts_in_reverse, C20_unvalidated_unapplied_first). The model's re-activation sweep (react over "
+            "full_ids, C20_react_sweep_sound) is run against every `react` of the harness on the modelled histories: same "
+            "number of blocks tried, all answers true, same state afterwards. Outside the "
             "model (finalization, altchain invalidate/revalidate/removeSubtree, the real VBK/BTC trees below the command "
             "interface) the property is checked on the implementation: every block that ever reported full validity or won a "
             "setState/compare is re-activated at random later points (planted invalid payloads, candidates valid only thanks "
